@@ -22,6 +22,11 @@ rm -rf "$W"; git -C /repo worktree prune
 git -C /repo worktree add -q --detach "$W" HEAD || exit 2
 cp -r /repo/target "$W/target"
 cd "$W"
+# tracked-file edits that belong to the demo (e.g. a `mod seed_demo;` line) = agent's full diff minus patch.diff
+(cd "$SRC" && git diff) > "$DEST/full.agent.diff"
+: > "$DEST/demo_tracked.diff"
+if git apply "$DEST/full.agent.diff" 2>/dev/null && git apply -R "$DEST/patch.diff" 2>/dev/null; then git diff > "$DEST/demo_tracked.diff"; fi
+git checkout -q -- . ; git clean -fdq -e target
 DEMO_CMD=$(python3 -c "
 import json,re
 c=json.load(open('$DEST/meta.agent.json')).get('demo_cmd','')
@@ -35,6 +40,7 @@ SUITE_OK=1; echo "$SUITE" | grep -q "FAILED\|[1-9][0-9]* failed" && SUITE_OK=0
 [ -z "$SUITE" ] && SUITE_OK=0
 # add demo
 while read -r f; do mkdir -p "$(dirname "$f")"; cp "$DEST/demo/$f" "$f"; done < "$DEST/demo_files.txt"
+[ -s "$DEST/demo_tracked.diff" ] && git apply "$DEST/demo_tracked.diff"
 bash -c "$DEMO_CMD" > "$DEST/demo_with_change.out" 2>&1; RC_WITH=$?
 git apply -R "$DEST/patch.diff"
 bash -c "$DEMO_CMD" > "$DEST/demo_without_change.out" 2>&1; RC_WITHOUT=$?
